@@ -248,19 +248,21 @@ func powExponents() []*big.Int {
 
 // C06 checks the scalar arithmetic on V_n x V_n.
 func C06(r *ev.Report) {
+	thorough := ev.Thorough() && !c06Seam
+
 	level := 0
-	if ev.Thorough() {
+	if thorough {
 		level = 1
 	}
 
 	vals := alpha.Values(ref.N, level)
 	pairVals := vals
 
-	if ev.Thorough() {
+	if thorough {
 		pairVals = alpha.Thin(alpha.Values(ref.N, 2), 16000)
 	}
 
-	if c06Light && !ev.Thorough() {
+	if c06Light && !thorough {
 		pairVals = alpha.Thin(vals, 400) // seam under another property: lighter pair product, same unary sweeps
 	}
 
@@ -345,7 +347,7 @@ func C06(r *ev.Report) {
 
 	// Pow
 	powVals := alpha.Thin(vals, 300)
-	if ev.Thorough() {
+	if thorough {
 		powVals = alpha.Thin(vals, 8000)
 	}
 
@@ -404,20 +406,29 @@ func valOf(v *big.Int) alpha.Val {
 // c06Light selects the lighter pair product used when the scalar layer is checked as a seam under another property.
 var c06Light bool
 
-func c06Seam(r *ev.Report) {
-	c06Light = true
+// c06Seam is set when the sweep runs as a seam part (see c12Seam).
+var c06Seam bool
+
+func c06SeamLight(r *ev.Report) {
+	c06Seam = true
+	c06Light = !ev.Thorough()
+	C06(r)
+}
+
+func c06SeamFull(r *ev.Report) {
+	c06Seam = true
 	C06(r)
 }
 
 func init() {
 	// Bits, the ladder, comparisons and Random all sit on the Fiat scalar arithmetic and its domain conversions
 	for _, pid := range []string{"C01", "C13", "C14", "C18"} {
-		Parts[pid+"scalar"] = Part{pid, c06Seam}
+		Parts[pid+"scalar"] = Part{pid, c06SeamLight}
 	}
 
 	// HashToScalar's wide reduction is two scalar multiplications and two additions: the scalar arithmetic is checked
 	// as a seam under C09 as well (its own inputs reach a defective operand class only by brute force over SHA-256).
-	Parts["C09scalar"] = Part{"C09", C06}
+	Parts["C09scalar"] = Part{"C09", c06SeamFull}
 	Parts["C06"] = Part{"C06", C06}
 	Replayers["C06"] = func(c Case) (bool, string) {
 		if c["op"] == "persist" {
